@@ -2,6 +2,8 @@
 import c01
 import facts as F
 import thirflow as TF
+import interp as I
+import itertools
 from facts import short, where
 
 EXPLANATION = (
@@ -29,6 +31,7 @@ def run(chk):
     rule_thread(chk)
     rule_usage(chk)
     rule_out(chk)
+    rule_trampoline_when(chk)
 
 
 def rule_sibling_ops(chk):
@@ -311,3 +314,48 @@ def rule_out(chk):
     ok = bool(after) and bool(calls) and min(after) > max(calls)
     chk.ob("C02.out/copy-back-after-call", ok, "the copy-back statements are appended after the call" if ok else
            "the copy-back statements are no longer appended after the call to the real function", where(tr))
+
+
+def rule_trampoline_when(chk):
+    """generate_function_and_trampoline read as a decision table: over every parameter list of length 0..3 with modifiers
+    {In, Out, InOut}, called/not called, declaration/definition: the copy-in/copy-out trampoline is emitted exactly when
+    some parameter is not `in` and the function is called, and then the real body is the trampoline target."""
+    f = chk.facts
+    fn = chk.anchor("C02.anchor/generate_function_and_trampoline", f.fn("generate_function_and_trampoline", MSL), "generate_function_and_trampoline")
+    mods = f.variants("InputModifier", "rssl_ir") or []
+    if not fn or not chk.anchor("C02.anchor/InputModifier", set(mods) == {"In", "Out", "InOut"} and mods, "InputModifier {In, Out, InOut}"):
+        return
+    bad = []
+    n = 0
+    for ln in range(0, 4):
+        for ms in itertools.product(mods, repeat=ln):
+            for called in (False, True):
+                for only_declare in (False, True):
+                    n += 1
+                    rec = []
+                    sig = I.Enum("FunctionSignature", None, {"param_types": [I.Enum("ParamType", None, {"input_modifier": I.Enum("InputModifier", m)}) for m in ms]})
+
+                    def inner(a, rec=rec):
+                        rec.append((a[1], a[2], a[3]))
+                        return I.Enum("Result", "Ok", {"0": I.Opaque("def")})
+                    ip = I.Interp(f, extern={"get_function_signature": lambda a: sig, "HashSet::<T, S, A>::contains": lambda a: called,
+                                             "generate_function_inner": inner, "Vec::<T, A>::push": lambda a: ()})
+                    try:
+                        ip.apply(fn, [I.Opaque("id"), only_declare, I.Opaque("functions"), I.Opaque("context")])
+                        got = rec
+                    except I.Unknown as e:
+                        got = "unreadable (%s)" % e
+                    needs = any(m != "In" for m in ms) and called
+                    want = []
+                    if not needs or not only_declare:
+                        want.append((only_declare, needs, False))
+                    if needs:
+                        want.append((only_declare, False, True))
+                    if got != want:
+                        bad.append(("(%s)" % ", ".join(ms), called, only_declare, got, want))
+    ok = not bad
+    chk.ob("C02.out/trampoline-when", ok,
+           "%d cases: trampoline emitted iff some parameter is out/inout and the function is called; the body then takes the trampoline-target signature" % n if ok else
+           "%d of %d cases differ, e.g. parameters %s called=%s only_declare=%s: emits (only_declare, trampoline_target, out_trampoline) = %s, must be %s: "
+           "an out/inout parameter %s" % ((len(bad), n) + bad[0] + ("binds directly to the argument (aliasing instead of copy-in/copy-out)" if len(str(bad[0][3])) < len(str(bad[0][4])) else "is handled differently",)),
+           where(fn), sample={"cases": n, "wrong": len(bad)})
